@@ -121,6 +121,10 @@ func ioFaultPlan(tp *simrt.Tape, fc *ioFaultCfg, agentPid func() int) (func(op *
 			errno = pick2(tp, syscall.ENOSPC, syscall.EIO)
 		}
 		op.Proc.W.CountFault("io_error:" + class)
+		if class == "log-write" {
+			// what the step printed into this file is lost from here on (the buffered writer keeps its error)
+			op.Proc.W.Emit("log_write_failed", name, op.Path, 0, nil)
+		}
 		if class == "pipe-open" {
 			// the attempt ends here without a process: the instant is needed to place the retry wait that follows
 			op.Proc.W.Emit("attempt_failed_in_setup", name, class, 0, nil)
@@ -306,6 +310,26 @@ func (c *stepCheck) checkIOFault(hung bool) {
 		if maxc > d.MaxActiveRuns {
 			sort.Strings(worst)
 			c.viol("C15", "limit-exceeded", fmt.Sprintf("iofault/over-by-%d", maxc-d.MaxActiveRuns), "maxActiveRuns=%d but %d steps were executing (a process open, or waiting out a retry interval) at once: %v", d.MaxActiveRuns, maxc, worst)
+		}
+	}
+
+	// ---- a step whose log could not be written has not finished: the attempt whose log is the recorded one
+	// lost output (a write to it failed, entirely or after a short write), so it counts as failed — whether the
+	// error came while the command ran or when its buffered output was flushed at the end (C04)
+	{
+		lost := map[string]bool{}
+		for _, e := range c.res.Events {
+			if e.Kind == "log_write_failed" {
+				lost[e.B] = true
+			}
+		}
+		for _, n := range c.final.Nodes {
+			if lost[n.Log] && nodeLabel(n) == "finished" {
+				c.viol("C04", "wrong-outcome", "iofault/finished-although-log-write-failed", "step %s is recorded finished, but a write to its log %s failed: what it printed is not all there", n.Step.Name, n.Log)
+			}
+			if lost[n.Log] {
+				bump(c.out, "recorded_log_had_failed_write")
+			}
 		}
 	}
 
